@@ -340,6 +340,10 @@ fn handle_eval_up_to_request(
         }
     }
 
+    // As for a run request, make sure the file has a namespace: the
+    // checks that eval_up_to runs look variables up in it.
+    env.get_or_create_namespace(&path);
+
     match eval_up_to(&vfs_path, env, session, &items, offset) {
         Ok((v, pos)) => Response {
             kind: ResponseKind::Evaluate {
